@@ -66,8 +66,8 @@ def parseOp : List String → Option WOp
 def wstep (s : St) : WOp → Option (St × Out)
   | .pair o => step s o
   | .prefill f => (SafePrice.prefill s f).map (·, {})
-  | .updPrice d a => (SafePrice.updateAndGetSafePrice s d a).map fun v => (s, ⟨v, 0, 0⟩)
-  | .updPos l => (SafePrice.updateAndGetPosition s l).map fun (a, b) => (s, ⟨a, b, 0⟩)
+  | .updPrice d a => (SafePrice.updateAndGetSafePrice s d a).map fun v => (s, { v1 := v })
+  | .updPos l => (SafePrice.updateAndGetPosition s l).map fun (a, b) => (s, { v1 := a, v2 := b })
 
 def showState (s : St) : String :=
   let l := s.sp.last
